@@ -616,6 +616,9 @@ func (s *Serializer) Deserialize(src []byte, dst *ParsedJson) (*ParsedJson, erro
 			sOffset := binary.LittleEndian.Uint64(values[:8])
 			sLen := binary.LittleEndian.Uint64(values[8:16])
 			values = values[16:]
+			if sOffset > JSONVALUEMASK {
+				return dst, fmt.Errorf("reading %v: string offset out of range", tag)
+			}
 
 			dst.Tape[off] = tagDst | sOffset
 			dst.Tape[off+1] = sLen
